@@ -77,8 +77,87 @@ fn hint_of(v: &FieldValue) -> String {
     if out.is_empty() { "-".into() } else { out.iter().map(|b| format!("{b:016x}")).collect::<Vec<_>>().join(",") }
 }
 
+/// serde_json's own rendering of an f32, parsed back as f64 (what a JSON client sees)
+fn json_widen(f: f32) -> f64 {
+    serde_json::to_string(&f).unwrap().parse::<f64>().unwrap()
+}
+
+/// Hint for the JSON ops: additionally `f32 bits > f64 bits` for every f32 that can occur (leaves,
+/// and the narrowing of every f64 leaf, which `normalize` may turn into an f32), and the JSON-clause
+/// items for those read-back values.
+fn hint_json(v: &FieldValue) -> String {
+    fn walk(v: &FieldValue, f32s: &mut Vec<f32>, f64s: &mut Vec<f64>) {
+        match v {
+            FieldValue::F32(x) => f32s.push(*x),
+            FieldValue::F64(d) => {
+                f64s.push(*d);
+                f32s.push(*d as f32);
+            }
+            FieldValue::Array(xs) => xs.iter().for_each(|x| walk(x, f32s, f64s)),
+            FieldValue::Map(m) => m.values().for_each(|x| walk(x, f32s, f64s)),
+            FieldValue::Json(j) => walk_json(j, f64s),
+            _ => {}
+        }
+    }
+    fn walk_json(j: &anda_db_schema::Json, f64s: &mut Vec<f64>) {
+        match j {
+            anda_db_schema::Json::Number(n) if n.is_f64() => f64s.push(n.as_f64().unwrap()),
+            anda_db_schema::Json::Array(xs) => xs.iter().for_each(|x| walk_json(x, f64s)),
+            anda_db_schema::Json::Object(m) => m.values().for_each(|x| walk_json(x, f64s)),
+            _ => {}
+        }
+    }
+    let (mut f32s, mut f64s) = (Vec::new(), Vec::new());
+    walk(v, &mut f32s, &mut f64s);
+    let mut items: Vec<String> = Vec::new();
+    for x in f32s {
+        if x.is_finite() {
+            let w = json_widen(x);
+            f64s.push(w);
+            let it = format!("{:08x}>{:016x}", x.to_bits(), w.to_bits());
+            if !items.contains(&it) {
+                items.push(it);
+            }
+        }
+    }
+    for d in f64s {
+        let it = format!("{:016x}", d.to_bits());
+        if oracle::json_clause(d) && !items.contains(&it) {
+            items.push(it);
+        }
+    }
+    if items.is_empty() { "-".into() } else { items.join(",") }
+}
+
 pub fn line(op: &str, ft: &FieldType, v: &FieldValue) -> String {
-    format!("{op} {} {} {}", hint_of(v), show_type(ft), show_value(v))
+    let hint = if op.starts_with('j') { hint_json(v) } else { hint_of(v) };
+    format!("{op} {hint} {} {}", show_type(ft), show_value(v))
+}
+
+/// JSON text of the stored document → parse → `try_from_doc` (the human-readable serde branch).
+fn jload(ft: &FieldType, v: &FieldValue) -> Result<FieldValue, &'static str> {
+    let schema = schema_for(ft);
+    let mut fields = IndexedFieldValues::new();
+    fields.insert(0, FieldValue::U64(1));
+    fields.insert(1, v.clone());
+    let text = serde_json::to_string(&DocumentOwned { fields }).map_err(|_| "err:ser")?;
+    let back: DocumentOwned = serde_json::from_str(&text).map_err(|_| "err:de")?;
+    let doc = Document::try_from_doc(schema, back).map_err(|_| "err:read")?;
+    doc.get_field("v").cloned().ok_or("err:read")
+}
+
+/// The two measured limits of the JSON rendering (not the storage form): a non-finite float is
+/// written as `null`, and serde_json's rendering of an f32 on a decimal tie is not a read-back
+/// shape `is_f32_read_back` accepts (see notes/C13.md).
+fn json_known_limit(v: &FieldValue) -> Option<&'static str> {
+    match v {
+        FieldValue::F64(d) if !d.is_finite() => Some("json:non-finite-float"),
+        FieldValue::F32(x) if !x.is_finite() => Some("json:non-finite-float"),
+        FieldValue::F32(x) if FieldType::F32.validate(&FieldValue::F64(json_widen(*x))).is_err() => Some("json:f32-decimal-tie"),
+        FieldValue::Array(xs) => xs.iter().find_map(json_known_limit),
+        FieldValue::Map(m) => m.values().find_map(json_known_limit),
+        _ => None,
+    }
 }
 
 /// encode → decode → `try_from_doc`, the storage read path of one field.
@@ -153,7 +232,8 @@ fn eval_line_inner(l: &str) -> Option<Eval> {
                 fail(format!("validate-accepts-invalid:{why}"), "FieldType::validate accepted a value that violates its declared type", format!("err ({why})"), "ok".into());
             }
             if !got && want.is_ok() {
-                ev.hits.push("note:valid-rejected".into());
+                // `validate_iff`: nothing valid is refused
+                fail("validate-refuses-valid".into(), "FieldType::validate refused a value that conforms to its declared type and budget", "ok".into(), "err".into());
             }
             ev.hits.push(if got { "val:ok" } else { "val:err" }.into());
             ev.nontrivial = got;
@@ -235,6 +315,52 @@ fn eval_line_inner(l: &str) -> Option<Eval> {
                 ev.impl_out = format!("ok {} | {}", show_value(&stored), show_load(&r));
             }
         },
+        "jrt" => match set(&ft, &v) {
+            None => {
+                ev.hits.push("jrt:rejected".into());
+                ev.impl_out = "err".into();
+            }
+            Some(stored) => {
+                let r = jload(&ft, &stored);
+                let limit = json_known_limit(&stored);
+                match &r {
+                    Ok(read) => {
+                        if !oracle::same_declared_mode(&ft, &stored, read, true) {
+                            match limit {
+                                Some(l) => ev.hits.push(format!("measured:{l}:read-differs")),
+                                None => fail("json-read-differs".into(), "the value read back from the JSON rendering differs from the stored one", show_value(&stored), show_value(read)),
+                            }
+                        } else {
+                            ev.nontrivial = true;
+                            ev.hits.push("jrt:roundtrip".into());
+                        }
+                        if let Err(why) = oracle::field_conforms(&ft, read, false) {
+                            fail(format!("json-read-invalid:{why}"), "the value read back from JSON is not valid for its type", "valid".into(), show_value(read));
+                        }
+                    }
+                    Err("err:ser") => ev.hits.push("jrt:unserializable".into()),
+                    Err(e) => match limit {
+                        Some(l) => ev.hits.push(format!("measured:{l}:{e}")),
+                        None if *e == "err:read" && oracle::vector_outgrows_budget(&ft, &stored) => {
+                            fail("accepted-then-unreadable:err:read".into(), "accepted on write but rejected on read", "ok".into(), e.to_string())
+                        }
+                        None => fail(format!("json-accepted-then-unreadable:{e}"), "accepted on write but its JSON rendering is rejected on read", "ok".into(), e.to_string()),
+                    },
+                }
+                ev.impl_out = format!("ok {} | {}", show_value(&stored), show_load(&r));
+            }
+        },
+        "jload" => {
+            let r = jload(&ft, &v);
+            if let Ok(read) = &r {
+                if let Err(why) = oracle::field_conforms(&ft, read, false) {
+                    fail(format!("json-read-accepts-invalid:{why}"), "try_from_doc of JSON input produced a value that violates its declared type", format!("err ({why})"), show_value(read));
+                }
+                ev.nontrivial = true;
+            }
+            ev.hits.push(format!("jload:{}", if r.is_ok() { "ok" } else { r.as_ref().unwrap_err() }));
+            ev.impl_out = show_load(&r);
+        }
         "load" => {
             let r = load(&ft, &v);
             if let Ok(read) = &r {
@@ -314,7 +440,7 @@ fn canon_line(l: &str) -> String {
         let hint = ts.next()?;
         let mut o: Vec<String> = vec![op.into(), hint.into()];
         match op {
-            "val" | "norm" | "prune" | "rt" | "load" | "set" => {
+            "val" | "norm" | "prune" | "rt" | "load" | "set" | "jrt" | "jload" => {
                 o.push(show_type(&parse_type(&mut ts)?));
                 o.push(show_value(&parse_value(&mut ts)?));
             }
@@ -735,6 +861,10 @@ fn gen_case(seed: u64, i: u64) -> Vec<String> {
     ops.push(line("norm", &ft, &v));
     ops.push(line("rt", &ft, &v));
     ops.push(line("load", &ft, &v));
+    ops.push(line("jrt", &ft, &v));
+    if r.chance(1, 3) {
+        ops.push(line("jload", &ft, &v));
+    }
     if r.chance(1, 2) {
         ops.push(line("prune", &ft, &v));
     }
